@@ -123,6 +123,31 @@ def blocked_interval_rule(ctx: Ctx, rid: str):
                    key=key_of_text(rid, fn.qual, f"{which} {a[0]}"))
     if n < 2:
         raise AnchorMissing(f"initScoreboard: {n} leave interval loops found (project-wide and own leaves expected)")
+    # every slot of the range that is still open (table entry None: on shift, nothing marked yet) receives the leave marker:
+    # onShift() looks at a slot's first second only, so the marker written here is what closes the slot in which a leave BEGINS
+    for loop in own_nodes(fn):
+        if not (isinstance(loop, ast.For) and isinstance(loop.iter, ast.Call) and norm(loop.iter.func) == "range" and len(loop.iter.args) == 2):
+            continue
+        if not any("interval" in norm(d.value) for d in own_nodes(fn) if isinstance(d, (ast.Assign, ast.AnnAssign)) and d.value is not None
+                   and any(isinstance(x, ast.Name) and x.id in {y.id for y in ast.walk(loop.iter) if isinstance(y, ast.Name)}
+                           for x in ast.walk(d.targets[0] if isinstance(d, ast.Assign) else d.target))):
+            continue
+
+        def writes(stmts):
+            return any(isinstance(a, ast.Assign) and any(isinstance(t, ast.Subscript) and norm(t.value) == "self.scoreboard" for t in a.targets) for a in stmts)
+        marks_open = writes(loop.body)
+        for st in loop.body:
+            if isinstance(st, ast.If):
+                t = norm(st.test)
+                if t.endswith("is not None") and writes(st.orelse):
+                    marks_open = True
+                if t.endswith("is None") and writes(st.body):
+                    marks_open = True
+        ctx.ob(rid, f"{fn.qual}: loop {norm(loop.iter)[:50]} marks the slots that are still open", (fn, loop), marks_open,
+               "an open slot inside the interval gets the leave marker" if marks_open else
+               "slots of the interval whose table entry is still None are skipped: the slot in which a leave or booking BEGINS mid-slot passes "
+               "the first-second test of onShift(), keeps no marker and is booked although part of it lies in the leave",
+               key=key_of_text(rid, fn.qual, f"open slots marked {norm(loop.iter)[:40]}"))
 
 
 def day_range_rule(ctx: Ctx, rid: str):
